@@ -1,9 +1,807 @@
 package tmverify
 
 import (
+	"sort"
 	"testing"
+	"time"
+
+	"github.com/cometbft/cometbft/crypto"
+	"github.com/cometbft/cometbft/crypto/ed25519"
+	cryptoenc "github.com/cometbft/cometbft/crypto/encoding"
+	cmtproto "github.com/cometbft/cometbft/proto/tendermint/types"
+	cmttypes "github.com/cometbft/cometbft/types"
+
+	sdk "github.com/cosmos/cosmos-sdk/types"
+
+	clienttypes "github.com/cosmos/ibc-go/v11/modules/core/02-client/types"
+	commitmenttypes "github.com/cosmos/ibc-go/v11/modules/core/23-commitment/types"
+	host "github.com/cosmos/ibc-go/v11/modules/core/24-host"
+	"github.com/cosmos/ibc-go/v11/modules/core/exported"
+	ibctm "github.com/cosmos/ibc-go/v11/modules/light-clients/07-tendermint"
+	ibctesting "github.com/cosmos/ibc-go/v11/testing"
 
 	"verif/harness/hx"
 )
 
-func famLight(t *testing.T, r *hx.Rng, o *hx.Out) {}
+// ---- projection of headers ---------------------------------------------------------------------------
+
+type valJ struct {
+	Addr  string `json:"addr"`
+	Pk    string `json:"pk"`
+	Power string `json:"power"`
+}
+
+type valsetJ struct {
+	Vals []valJ `json:"vals"`
+	Prop *valJ  `json:"prop"`
+}
+
+func projVal(v *cmtproto.Validator) valJ {
+	pk := ""
+	if k, err := cryptoenc.PubKeyFromProto(v.PubKey); err == nil {
+		pk = hx.H(k.Bytes())
+	}
+	return valJ{Addr: hx.H(v.Address), Pk: pk, Power: i64(v.VotingPower)}
+}
+
+func projValset(vs *cmtproto.ValidatorSet) *valsetJ {
+	if vs == nil {
+		return nil
+	}
+	out := &valsetJ{Vals: []valJ{}}
+	for _, v := range vs.Validators {
+		out.Vals = append(out.Vals, projVal(v))
+	}
+	if vs.Proposer != nil {
+		p := projVal(vs.Proposer)
+		out.Prop = &p
+	}
+	return out
+}
+
+func projBlockID(b cmtproto.BlockID) []any {
+	return []any{hx.H(b.Hash), hx.U(uint64(b.PartSetHeader.Total)), hx.H(b.PartSetHeader.Hash)}
+}
+
+func projHeaderFields(h *cmtproto.Header) map[string]any {
+	return map[string]any{"block": hx.U(h.Version.Block), "app": hx.U(h.Version.App), "chain": hx.HS(h.ChainID),
+		"height": i64(h.Height), "time": ns(h.Time), "last": projBlockID(h.LastBlockId),
+		"lastcommit": hx.H(h.LastCommitHash), "data": hx.H(h.DataHash), "vals": hx.H(h.ValidatorsHash),
+		"nextvals": hx.H(h.NextValidatorsHash), "cons": hx.H(h.ConsensusHash), "apphash": hx.H(h.AppHash),
+		"results": hx.H(h.LastResultsHash), "evidence": hx.H(h.EvidenceHash), "proposer": hx.H(h.ProposerAddress)}
+}
+
+func projTmHeader(h *ibctm.Header) map[string]any {
+	sigs := []any{}
+	for _, s := range h.Commit.Signatures {
+		sigs = append(sigs, []any{int(s.BlockIdFlag), hx.H(s.ValidatorAddress), ns(s.Timestamp), hx.H(s.Signature)})
+	}
+	return map[string]any{"hdr": projHeaderFields(h.Header),
+		"commit": map[string]any{"height": i64(h.Commit.Height), "round": i64(int64(h.Commit.Round)),
+			"bid": projBlockID(h.Commit.BlockID), "sigs": sigs},
+		"vals": projValset(h.ValidatorSet), "trusted": hj(h.TrustedHeight), "tvals": projValset(h.TrustedValidators)}
+}
+
+// tables of results of the real dependency functions on the values occurring in the headers
+type ltables struct {
+	sigs  [][]string
+	vhash [][]any
+	hhash [][]any
+	addr  [][]string
+	seenA map[string]bool
+	seenV map[string]bool
+}
+
+func newLTables() *ltables {
+	return &ltables{seenA: map[string]bool{}, seenV: map[string]bool{}}
+}
+
+func (t *ltables) addValset(vs *cmtproto.ValidatorSet) []crypto.PubKey {
+	if vs == nil {
+		return nil
+	}
+	keys := []crypto.PubKey{}
+	all := append([]*cmtproto.Validator{}, vs.Validators...)
+	if vs.Proposer != nil {
+		all = append(all, vs.Proposer)
+	}
+	vals := []*cmttypes.Validator{}
+	ok := true
+	for i, v := range all {
+		k, err := cryptoenc.PubKeyFromProto(v.PubKey)
+		if err != nil {
+			ok = false
+			continue
+		}
+		keys = append(keys, k)
+		if !t.seenA[string(k.Bytes())] {
+			t.seenA[string(k.Bytes())] = true
+			t.addr = append(t.addr, []string{hx.H(k.Bytes()), hx.H(k.Address())})
+		}
+		if i < len(vs.Validators) {
+			vals = append(vals, &cmttypes.Validator{Address: v.Address, PubKey: k, VotingPower: v.VotingPower})
+		}
+	}
+	if ok {
+		pj := projValset(vs)
+		var hash []byte
+		if p, _ := hx.Catch(func() { hash = (&cmttypes.ValidatorSet{Validators: vals}).Hash() }); !p {
+			t.vhash = append(t.vhash, []any{pj.Vals, hx.H(hash)})
+		}
+	}
+	return keys
+}
+
+func (t *ltables) addHeader(h *ibctm.Header, chains []string) {
+	keys := append(t.addValset(h.ValidatorSet), t.addValset(h.TrustedValidators)...)
+	if hh, _ := cmttypes.HeaderFromProto(h.Header); true {
+		var hash []byte
+		if p, _ := hx.Catch(func() { hash = hh.Hash() }); !p {
+			t.hhash = append(t.hhash, []any{projHeaderFields(h.Header), hx.H(hash)})
+		}
+	}
+	// signature validity for every (key, candidate chain id, commit signature)
+	commit := &cmttypes.Commit{Height: h.Commit.Height, Round: h.Commit.Round,
+		BlockID: cmttypes.BlockID{Hash: h.Commit.BlockID.Hash,
+			PartSetHeader: cmttypes.PartSetHeader{Total: h.Commit.BlockID.PartSetHeader.Total, Hash: h.Commit.BlockID.PartSetHeader.Hash}}}
+	for _, s := range h.Commit.Signatures {
+		commit.Signatures = append(commit.Signatures, cmttypes.CommitSig{BlockIDFlag: cmttypes.BlockIDFlag(s.BlockIdFlag),
+			ValidatorAddress: s.ValidatorAddress, Timestamp: s.Timestamp, Signature: s.Signature})
+	}
+	uniq := map[string]crypto.PubKey{}
+	for _, k := range keys {
+		uniq[string(k.Bytes())] = k
+	}
+	names := []string{}
+	for n := range uniq {
+		names = append(names, n)
+	}
+	sort.Strings(names)
+	for _, chain := range chains {
+		for idx, s := range commit.Signatures {
+			if s.BlockIDFlag != cmttypes.BlockIDFlagCommit {
+				continue
+			}
+			var msg []byte
+			if p, _ := hx.Catch(func() { msg = commit.VoteSignBytes(chain, int32(idx)) }); p {
+				continue
+			}
+			for _, n := range names {
+				valid := false
+				hx.Catch(func() { valid = uniq[n].VerifySignature(msg, s.Signature) })
+				if valid {
+					row := []string{hx.H(uniq[n].Bytes()), hx.HS(chain), hx.H(s.Signature)}
+					key := row[0] + row[1] + row[2]
+					if !t.seenV[key] {
+						t.seenV[key] = true
+						t.sigs = append(t.sigs, row)
+					}
+				}
+			}
+		}
+	}
+}
+
+func (t *ltables) json() map[string]any {
+	nz := func(x any) any { return x }
+	return map[string]any{"sigs": nz(t.sigs), "vhash": nz(t.vhash), "hhash": nz(t.hhash), "addr": nz(t.addr)}
+}
+
+// ---- validators ----------------------------------------------------------------------------------------
+
+type keyring struct {
+	pvs []cmttypes.PrivValidator
+}
+
+func newKeyring(r *hx.Rng, n int) *keyring {
+	k := &keyring{}
+	for i := 0; i < n; i++ {
+		priv := ed25519.GenPrivKeyFromSecret(r.Bytes(32))
+		k.pvs = append(k.pvs, cmttypes.NewMockPVWithParams(priv, false, false))
+	}
+	return k
+}
+
+// set builds a validator set from key indices and powers (sorted the CometBFT way) and its signer map.
+func (k *keyring) set(idx []int, pow []int64) (*cmttypes.ValidatorSet, map[string]cmttypes.PrivValidator) {
+	vals := []*cmttypes.Validator{}
+	signers := map[string]cmttypes.PrivValidator{}
+	for j, i := range idx {
+		pk, _ := k.pvs[i].GetPubKey()
+		v := cmttypes.NewValidator(pk, pow[j])
+		vals = append(vals, v)
+		signers[v.Address.String()] = k.pvs[i]
+	}
+	return cmttypes.NewValidatorSet(vals), signers
+}
+
+// ---- the light environment: one client on chain A whose state is overwritten per case ----------------
+
+type lightEnv struct {
+	e    *env
+	cid  string
+	keys *keyring
+}
+
+type lcase struct {
+	chain    string
+	tl       ibctm.Fraction
+	trusting time.Duration
+	drift    time.Duration
+	latest   clienttypes.Height
+	cons     map[clienttypes.Height]*ibctm.ConsensusState
+	now      time.Time
+}
+
+// install writes the case's client into a cache context and returns it.
+func (l *lightEnv) install(c *lcase) sdk.Context {
+	ctx, _ := l.e.A.GetContext().CacheContext()
+	ctx = ctx.WithBlockTime(c.now)
+	k := l.e.ibc().ClientKeeper
+	cs := ibctm.NewClientState(c.chain, c.tl, c.trusting, c.trusting*2, c.drift, c.latest, commitmenttypes.GetSDKSpecs(), ibctesting.UpgradePath)
+	// remove the consensus states the client was created with
+	old := l.e.projClient(ctx, l.cid)
+	store := k.ClientStore(ctx, l.cid)
+	for _, oc := range old.Cons {
+		h := clienttypes.NewHeight(mustU(oc.H[0]), mustU(oc.H[1]))
+		store.Delete(host.ConsensusStateKey(h))
+		store.Delete(ibctm.ProcessedTimeKey(h))
+		store.Delete(ibctm.ProcessedHeightKey(h))
+		store.Delete(ibctm.IterationKey(h))
+	}
+	k.SetClientState(ctx, l.cid, cs)
+	for h, c := range c.cons {
+		k.SetClientConsensusState(ctx, l.cid, h, c)
+	}
+	return ctx
+}
+
+func verdict(f func() error) string { return outcome(f) }
+
+func (l *lightEnv) emitHeader(o *hx.Out, c *lcase, h *ibctm.Header, tag string) {
+	ctx := l.install(c)
+	m := l.e.roundTrip(l.cid, h).(*ibctm.Header)
+	mod, err := l.e.ibc().ClientKeeper.Route(ctx, l.cid)
+	if err != nil {
+		panic(err)
+	}
+	basic := verdict(func() error { return m.ValidateBasic() })
+	v := verdict(func() error { return mod.VerifyClientMessage(ctx, l.cid, m) })
+	t := newLTables()
+	t.addHeader(m, l.chains(c, m))
+	o.Emit("lheader", map[string]any{"client": l.e.projClient(ctx, l.cid), "valid": l.e.tmState(ctx, l.cid).Validate() == nil,
+		"now": ns(c.now), "h": projTmHeader(m), "tables": t.json()},
+		[]string{basic, v}, tag)
+}
+
+func (l *lightEnv) chains(c *lcase, hs ...*ibctm.Header) []string {
+	set := map[string]bool{c.chain: true}
+	for _, h := range hs {
+		set[h.Header.ChainID] = true
+		if clienttypes.IsRevisionFormat(c.chain) {
+			hx.Catch(func() {
+				if s, err := clienttypes.SetRevisionNumber(c.chain, clienttypes.ParseChainID(h.Header.ChainID)); err == nil {
+					set[s] = true
+				}
+			})
+		}
+	}
+	out := []string{}
+	for s := range set {
+		out = append(out, s)
+	}
+	sort.Strings(out)
+	return out
+}
+
+func (l *lightEnv) emitMisb(o *hx.Out, c *lcase, h1, h2 *ibctm.Header, tag string) {
+	ctx := l.install(c)
+	m := l.e.roundTrip(l.cid, &ibctm.Misbehaviour{ClientId: l.cid, Header1: h1, Header2: h2}).(*ibctm.Misbehaviour)
+	k := l.e.ibc().ClientKeeper
+	mod, err := k.Route(ctx, l.cid)
+	if err != nil {
+		panic(err)
+	}
+	basic := verdict(func() error { return m.ValidateBasic() })
+	v := verdict(func() error { return mod.VerifyClientMessage(ctx, l.cid, m) })
+	// does the whole UpdateClient freeze the client?
+	cctx, _ := ctx.CacheContext()
+	upd := verdict(func() error { return k.UpdateClient(cctx, l.cid, m) })
+	frozen := false
+	if upd == "ok" {
+		frozen = k.GetClientStatus(cctx, l.cid) == exported.Frozen
+	}
+	t := newLTables()
+	t.addHeader(m.Header1, l.chains(c, m.Header1, m.Header2))
+	t.addHeader(m.Header2, l.chains(c, m.Header1, m.Header2))
+	o.Emit("lmisb", map[string]any{"client": l.e.projClient(ctx, l.cid), "valid": l.e.tmState(ctx, l.cid).Validate() == nil,
+		"now": ns(c.now), "h1": projTmHeader(m.Header1),
+		"h2": projTmHeader(m.Header2), "tables": t.json()}, []any{basic, v, frozen, upd}, tag)
+}
+
+// ---- generators --------------------------------------------------------------------------------------------
+
+var t0 = time.Date(2024, 5, 6, 7, 8, 9, 123456789, time.UTC)
+
+type scen struct {
+	c        *lcase
+	tset     *cmttypes.ValidatorSet
+	tsign    map[string]cmttypes.PrivValidator
+	uset     *cmttypes.ValidatorSet
+	usign    map[string]cmttypes.PrivValidator
+	trusted  clienttypes.Height
+	height   int64
+	time     time.Time
+	adjacent bool
+}
+
+func pick(r *hx.Rng, n, k int) []int {
+	p := []int{}
+	for i := 0; i < n; i++ {
+		p = append(p, i)
+	}
+	for i := 0; i < k; i++ {
+		j := i + r.Intn(n-i)
+		p[i], p[j] = p[j], p[i]
+	}
+	return p[:k]
+}
+
+func powers(r *hx.Rng, k int) []int64 {
+	out := []int64{}
+	mode := r.Intn(3)
+	for i := 0; i < k; i++ {
+		switch mode {
+		case 0:
+			out = append(out, 1)
+		case 1:
+			out = append(out, int64(1+r.Intn(5)))
+		default:
+			out = append(out, int64(1+r.Intn(100)))
+		}
+	}
+	return out
+}
+
+// baseScen: a client with one trusted consensus state and a header that verifies.
+func (l *lightEnv) baseScen(r *hx.Rng, adjacent bool) *scen {
+	nk := len(l.keys.pvs)
+	kt := 1 + r.Intn(5)
+	ti := pick(r, nk, kt)
+	tset, tsign := l.keys.set(ti, powers(r, kt))
+	s := &scen{tset: tset, tsign: tsign, adjacent: adjacent}
+	if adjacent || r.Chance(1, 3) {
+		s.uset, s.usign = tset, tsign
+	} else {
+		// overlapping sets: keep some trusted validators, add new ones
+		keep := 1 + r.Intn(kt)
+		ui := append([]int{}, ti[:keep]...)
+		for _, x := range pick(r, nk, 1+r.Intn(4)) {
+			dup := false
+			for _, y := range ui {
+				dup = dup || x == y
+			}
+			if !dup {
+				ui = append(ui, x)
+			}
+		}
+		s.uset, s.usign = l.keys.set(ui, powers(r, len(ui)))
+	}
+	th := uint64(10 + r.Intn(1000))
+	s.trusted = clienttypes.NewHeight(1, th)
+	if adjacent {
+		s.height = int64(th) + 1
+	} else {
+		s.height = int64(th) + 2 + int64(r.Intn(50))
+	}
+	tl := ibctm.DefaultTrustLevel
+	switch r.Intn(4) {
+	case 0:
+		tl = ibctm.Fraction{Numerator: 2, Denominator: 3}
+	case 1:
+		tl = ibctm.Fraction{Numerator: 1, Denominator: 1}
+	}
+	trusting := time.Duration(1+r.Intn(100)) * time.Hour
+	ttime := t0.Add(time.Duration(r.Intn(1000)) * time.Second)
+	s.time = ttime.Add(time.Duration(1+r.Intn(3600)) * time.Second)
+	s.c = &lcase{chain: "testchain2-1", tl: tl, trusting: trusting, drift: 10 * time.Second, latest: s.trusted,
+		cons: map[clienttypes.Height]*ibctm.ConsensusState{s.trusted: {Timestamp: ttime, Root: commitmenttypes.NewMerkleRoot(r.Bytes(32)),
+			NextValidatorsHash: tset.Hash()}},
+		now: s.time.Add(time.Duration(r.Intn(600)) * time.Second)}
+	return s
+}
+
+func (s *scen) header(r *hx.Rng) *ibctm.Header {
+	return mkHeader(hdrSpec{ChainID: s.c.chain, Height: s.height, Trusted: s.trusted, Time: s.time, AppHash: r.Bytes(32),
+		Vals: s.uset, NextVals: s.uset, TrustedVals: s.tset, Signers: s.usign})
+}
+
+func absent(s *cmtproto.CommitSig) {
+	s.BlockIdFlag = cmtproto.BlockIDFlagAbsent
+	s.ValidatorAddress = nil
+	s.Timestamp = time.Time{}
+	s.Signature = nil
+}
+
+// rehash recomputes the header hash and points the commit at it (without re-signing).
+func rehash(h *ibctm.Header) {
+	hh, _ := cmttypes.HeaderFromProto(h.Header)
+	hx.Catch(func() { h.Commit.BlockID.Hash = hh.Hash() })
+}
+
+var headerMutations = []string{"none", "drop-sigs", "drop-to-boundary", "bad-sig-early", "bad-sig-late", "nil-votes", "field-time", "field-apphash",
+	"field-nextvals", "field-height", "field-chain", "field-data", "field-rehash", "commit-round", "commit-height", "commit-parts", "sig-timestamp",
+	"vals-power", "vals-power-rehash", "vals-extra", "vals-reorder", "vals-addr", "vals-negative", "vals-overflow", "vals-empty", "vals-nil",
+	"vals-noproposer", "vals-proposer-outside", "tvals-wrong", "tvals-power", "tvals-nil", "trusted-missing", "trusted-ge", "trusted-revision",
+	"revision", "time-le-trusted", "time-drift", "expired", "sig-addr", "version", "proposer-len", "hash-len", "sig-len", "double-vote",
+	"unknown-flag", "trust-level-wrap", "huge-revision", "now-boundaries"}
+
+func (l *lightEnv) genHeader(r *hx.Rng, o *hx.Out, mut string) {
+	adjacent := r.Bool()
+	s := l.baseScen(r, adjacent)
+	switch mut {
+	case "time-le-trusted":
+		s.time = s.c.cons[s.trusted].Timestamp.Add(time.Duration(r.Intn(2)-1) * time.Nanosecond * time.Duration(r.Intn(2)))
+	case "time-drift":
+		s.time = s.c.now.Add(s.c.drift).Add(time.Duration(r.Intn(3) - 1))
+	case "expired":
+		s.c.now = s.c.cons[s.trusted].Timestamp.Add(s.c.trusting).Add(time.Duration(r.Intn(3) - 1))
+		s.time = s.c.now.Add(-time.Nanosecond)
+		if !s.time.After(s.c.cons[s.trusted].Timestamp) {
+			s.time = s.c.cons[s.trusted].Timestamp.Add(time.Nanosecond)
+		}
+	case "now-boundaries":
+		// header time exactly now+drift-1ns, client exactly 1ns before expiry
+		s.c.now = s.c.cons[s.trusted].Timestamp.Add(s.c.trusting).Add(-time.Nanosecond)
+		s.time = s.c.now.Add(s.c.drift).Add(-time.Nanosecond)
+	case "revision":
+		s.c.chain = "testchain2-1"
+	case "trust-level-wrap":
+		// int64(denominator) is negative: the trusting check needs "more than -1" voting power
+		s.c.tl = ibctm.Fraction{Numerator: 1 << 62, Denominator: 3 << 62}
+		pk, _ := l.keys.pvs[0].GetPubKey()
+		s.tset = cmttypes.NewValidatorSet([]*cmttypes.Validator{cmttypes.NewValidator(pk, 1)})
+		s.c.cons[s.trusted].NextValidatorsHash = s.tset.Hash()
+		s.uset, s.usign = l.keys.set([]int{3, 4, 5}, []int64{5, 5, 5})
+		s.adjacent = false
+		s.height = int64(s.trusted.RevisionHeight) + 5
+	}
+	h := s.header(r)
+	sigs := h.Commit.Signatures
+	n := len(sigs)
+	switch mut {
+	case "drop-sigs":
+		for i := range sigs {
+			if r.Bool() {
+				absent(&sigs[i])
+			}
+		}
+	case "drop-to-boundary":
+		// drop signatures from the end until the remaining power is the smallest value above 2/3, or exactly at it
+		total := s.uset.TotalVotingPower()
+		need := total * 2 / 3
+		rem := total
+		for i := n - 1; i >= 0; i-- {
+			p := s.uset.Validators[i].VotingPower
+			if rem-p > need || (r.Bool() && rem-p == need) {
+				absent(&sigs[i])
+				rem -= p
+			}
+		}
+	case "bad-sig-early":
+		sigs[0].Signature[r.Intn(64)] ^= 1
+	case "bad-sig-late":
+		sigs[n-1].Signature[r.Intn(64)] ^= 1
+	case "nil-votes":
+		i := r.Intn(n)
+		sigs[i].BlockIdFlag = cmtproto.BlockIDFlagNil
+	case "field-time":
+		h.Header.Time = h.Header.Time.Add(time.Nanosecond)
+	case "field-apphash":
+		h.Header.AppHash = r.Bytes(32)
+	case "field-nextvals":
+		h.Header.NextValidatorsHash = r.Bytes(32)
+	case "field-height":
+		h.Header.Height++
+	case "field-chain":
+		h.Header.ChainID = "testchain2-1x"
+	case "field-data":
+		h.Header.DataHash = r.Bytes(32)
+	case "field-rehash":
+		switch r.Intn(4) {
+		case 0:
+			h.Header.Time = h.Header.Time.Add(time.Nanosecond)
+		case 1:
+			h.Header.AppHash = r.Bytes(32)
+		case 2:
+			h.Header.NextValidatorsHash = r.Bytes(32)
+		default:
+			h.Header.LastResultsHash = r.Bytes(32)
+		}
+		rehash(h)
+	case "commit-round":
+		h.Commit.Round++
+	case "commit-height":
+		h.Commit.Height++
+	case "commit-parts":
+		if r.Bool() {
+			h.Commit.BlockID.PartSetHeader.Total++
+		} else {
+			h.Commit.BlockID.PartSetHeader.Hash = r.Bytes(32)
+		}
+	case "sig-timestamp":
+		sigs[r.Intn(n)].Timestamp = sigs[0].Timestamp.Add(time.Nanosecond)
+	case "vals-power":
+		h.ValidatorSet.Validators[r.Intn(len(h.ValidatorSet.Validators))].VotingPower++
+	case "vals-power-rehash":
+		h.ValidatorSet.Validators[r.Intn(len(h.ValidatorSet.Validators))].VotingPower += 1000
+		vs, _ := cmttypes.ValidatorSetFromProto(h.ValidatorSet)
+		if vs != nil {
+			h.Header.ValidatorsHash = vs.Hash()
+			rehash(h)
+		}
+	case "vals-extra":
+		pk, _ := l.keys.pvs[len(l.keys.pvs)-1].GetPubKey()
+		ev, _ := cmttypes.NewValidator(pk, 1).ToProto()
+		h.ValidatorSet.Validators = append(h.ValidatorSet.Validators, ev)
+	case "vals-reorder":
+		v := h.ValidatorSet.Validators
+		if len(v) > 1 {
+			v[0], v[len(v)-1] = v[len(v)-1], v[0]
+		}
+	case "vals-addr":
+		h.ValidatorSet.Validators[0].Address = r.Bytes(20)
+	case "vals-negative":
+		h.ValidatorSet.Validators[0].VotingPower = -1
+	case "vals-overflow":
+		h.ValidatorSet.Validators[0].VotingPower = (1<<63-1)/8 + int64(r.Intn(2))
+	case "vals-empty":
+		h.ValidatorSet.Validators = nil
+	case "vals-nil":
+		h.ValidatorSet = nil
+	case "vals-noproposer":
+		h.ValidatorSet.Proposer = nil
+	case "vals-proposer-outside":
+		pk, _ := l.keys.pvs[len(l.keys.pvs)-1].GetPubKey()
+		ev, _ := cmttypes.NewValidator(pk, 1).ToProto()
+		h.ValidatorSet.Proposer = ev
+	case "tvals-wrong":
+		other, _ := l.keys.set(pick(r, len(l.keys.pvs), 2), []int64{3, 4})
+		h.TrustedValidators = valsProto(other)
+	case "tvals-power":
+		h.TrustedValidators.Validators[0].VotingPower++
+	case "tvals-nil":
+		h.TrustedValidators = nil
+	case "trusted-missing":
+		h.TrustedHeight = clienttypes.NewHeight(1, s.trusted.RevisionHeight+1)
+	case "trusted-ge":
+		// a second consensus state at or above the header height, with the same trusted validators
+		th := clienttypes.NewHeight(1, uint64(s.height)+uint64(r.Intn(2)))
+		s.c.cons[th] = &ibctm.ConsensusState{Timestamp: s.c.cons[s.trusted].Timestamp, Root: commitmenttypes.NewMerkleRoot(r.Bytes(32)),
+			NextValidatorsHash: s.tset.Hash()}
+		s.c.latest = th
+		h.TrustedHeight = th
+	case "trusted-revision":
+		th := clienttypes.NewHeight(2, s.trusted.RevisionHeight)
+		s.c.cons[th] = s.c.cons[s.trusted]
+		h.TrustedHeight = th
+	case "revision":
+		// a properly signed header of the next revision of the chain
+		s.c.chain = "testchain2-1"
+		h = mkHeader(hdrSpec{ChainID: "testchain2-2", Height: s.height, Trusted: s.trusted, Time: s.time, AppHash: r.Bytes(32),
+			Vals: s.uset, NextVals: s.uset, TrustedVals: s.tset, Signers: s.usign})
+	case "sig-addr":
+		sigs[r.Intn(n)].ValidatorAddress = r.Bytes(20)
+	case "version":
+		h.Header.Version.Block++
+		rehash(h)
+	case "proposer-len":
+		h.Header.ProposerAddress = r.Bytes(19)
+		rehash(h)
+	case "hash-len":
+		h.Header.DataHash = r.Bytes(31)
+		rehash(h)
+	case "sig-len":
+		if r.Bool() {
+			sigs[r.Intn(n)].Signature = r.Bytes(3309 + r.Intn(2))
+		} else {
+			sigs[r.Intn(n)].Signature = nil
+		}
+	case "double-vote":
+		// the header's own set lists one validator twice; both entries sign
+		if !s.adjacent {
+			v := h.ValidatorSet.Validators
+			h.ValidatorSet.Validators = append([]*cmtproto.Validator{v[0]}, v...)
+			h.Commit.Signatures = append([]cmtproto.CommitSig{sigs[0]}, sigs...)
+			vs := &cmttypes.ValidatorSet{}
+			for _, pv := range h.ValidatorSet.Validators {
+				k, _ := cryptoenc.PubKeyFromProto(pv.PubKey)
+				vs.Validators = append(vs.Validators, &cmttypes.Validator{Address: pv.Address, PubKey: k, VotingPower: pv.VotingPower})
+			}
+			h.Header.ValidatorsHash = vs.Hash()
+			rehash(h)
+		}
+	case "unknown-flag":
+		sigs[r.Intn(n)].BlockIdFlag = 4
+	case "huge-revision":
+		h.Header.ChainID = "x-99999999999999999999999"
+		rehash(h)
+	case "trust-level-wrap":
+		// nobody from the trusted set signs
+	}
+	l.emitHeader(o, s.c, h, mut)
+}
+
+var misbMutations = []string{"fork", "fork", "time-violation", "same-block", "in-order", "h1-below-h2", "chain-differs", "trusted-zero",
+	"tvals-nil", "one-invalid-sig", "one-wrong-tvals", "trusted-missing", "trusting-boundary", "low-power", "other-revision",
+	"not-own-two-thirds", "tvals-disjoint"}
+
+func (l *lightEnv) genMisb(r *hx.Rng, o *hx.Out, mut string) {
+	s := l.baseScen(r, false)
+	if r.Bool() {
+		s.uset, s.usign = s.tset, s.tsign
+	}
+	s.c.now = s.time.Add(time.Duration(1+r.Intn(100)) * time.Second)
+	mk := func(chain string, height int64, t time.Time, uset *cmttypes.ValidatorSet, usign map[string]cmttypes.PrivValidator) *ibctm.Header {
+		return mkHeader(hdrSpec{ChainID: chain, Height: height, Trusted: s.trusted, Time: t, AppHash: r.Bytes(32),
+			Vals: uset, NextVals: uset, TrustedVals: s.tset, Signers: usign})
+	}
+	h1 := mk(s.c.chain, s.height, s.time, s.uset, s.usign)
+	h2 := mk(s.c.chain, s.height, s.time.Add(-time.Second), s.uset, s.usign)
+	switch mut {
+	case "time-violation":
+		h1 = mk(s.c.chain, s.height+1, s.time.Add(-time.Duration(r.Intn(2))*time.Second), s.uset, s.usign)
+		h2 = mk(s.c.chain, s.height, s.time, s.uset, s.usign)
+	case "same-block":
+		h2 = h1
+	case "in-order":
+		h1 = mk(s.c.chain, s.height+1, s.time.Add(time.Second), s.uset, s.usign)
+		h2 = mk(s.c.chain, s.height, s.time, s.uset, s.usign)
+	case "h1-below-h2":
+		h1, h2 = mk(s.c.chain, s.height, s.time, s.uset, s.usign), mk(s.c.chain, s.height+1, s.time, s.uset, s.usign)
+	case "chain-differs":
+		h2 = mk("testchain2-2", s.height, s.time.Add(-time.Second), s.uset, s.usign)
+	case "trusted-zero":
+		h2.TrustedHeight = clienttypes.NewHeight(1, 0)
+	case "tvals-nil":
+		h1.TrustedValidators = nil
+	case "one-invalid-sig":
+		h2.Commit.Signatures[0].Signature[3] ^= 4
+	case "one-wrong-tvals":
+		other, _ := l.keys.set(pick(r, len(l.keys.pvs), 2), []int64{3, 4})
+		h2.TrustedValidators = valsProto(other)
+	case "trusted-missing":
+		h1.TrustedHeight = clienttypes.NewHeight(1, s.trusted.RevisionHeight-1)
+	case "trusting-boundary":
+		s.c.now = s.c.cons[s.trusted].Timestamp.Add(s.c.trusting).Add(time.Duration(r.Intn(3) - 1))
+	case "low-power":
+		for i := range h2.Commit.Signatures {
+			if i > 0 || r.Bool() {
+				absent(&h2.Commit.Signatures[i])
+			}
+		}
+	case "other-revision":
+		h1 = mk("testchain2-3", s.height, s.time, s.uset, s.usign)
+		h2 = mk("testchain2-3", s.height, s.time.Add(-time.Second), s.uset, s.usign)
+	case "not-own-two-thirds":
+		// enough trusted power, but the header's own (bigger) set has not signed with > 2/3
+		big, bsign := l.keys.set([]int{0, 1, 2, 3, 4, 5, 6}, []int64{1, 1, 1, 1, 1, 1, 1})
+		h2 = mk(s.c.chain, s.height, s.time.Add(-time.Second), big, bsign)
+		for i := range h2.Commit.Signatures {
+			if i >= 3 {
+				absent(&h2.Commit.Signatures[i])
+			}
+		}
+	case "tvals-disjoint":
+		nk := len(l.keys.pvs)
+		dis, dsign := l.keys.set([]int{nk - 1, nk - 2}, []int64{5, 5})
+		h2 = mk(s.c.chain, s.height, s.time.Add(-time.Second), dis, dsign)
+	}
+	l.emitMisb(o, s.c, h1, h2, mut)
+}
+
+
+// famValidate: ClientState.Validate on one-field variations of a valid client state, and 02-client CreateClient
+// with the same states (regression of finding F9: trust levels that do not fit int64 must be refused).
+func famValidate(e *env, r *hx.Rng, o *hx.Out) {
+	mk := func() *ibctm.ClientState {
+		return ibctm.NewClientState("testchain2-1", ibctm.DefaultTrustLevel, ibctesting.TrustingPeriod, ibctesting.UnbondingPeriod,
+			ibctesting.MaxClockDrift, clienttypes.NewHeight(1, 10), commitmenttypes.GetSDKSpecs(), ibctesting.UpgradePath)
+	}
+	variants := []string{"valid", "tl-wrap", "tl-num-big", "tl-den-big", "tl-max", "tl-zero-den", "tl-below-third", "tl-above-one", "tl-one",
+		"tl-two-thirds", "chain-blank", "chain-empty", "chain-long", "chain-50", "trusting-zero", "trusting-neg", "unbonding-zero", "drift-zero",
+		"revision-mismatch", "height-zero", "trusting-eq-unbonding", "trusting-gt-unbonding", "specs-nil", "upath-blank", "upath-empty", "no-revision",
+		"huge-revision"}
+	for rep := 0; rep < hx.N(2, 40); rep++ {
+		for _, v := range variants {
+			cs := mk()
+			switch v {
+			case "tl-wrap":
+				cs.TrustLevel = ibctm.Fraction{Numerator: 1 << 62, Denominator: 3 << 62}
+			case "tl-num-big":
+				cs.TrustLevel = ibctm.Fraction{Numerator: 1<<63 + uint64(r.Intn(5)), Denominator: 1<<63 + 5 + uint64(r.Intn(5))}
+			case "tl-den-big":
+				cs.TrustLevel = ibctm.Fraction{Numerator: 1<<63 - 1 - uint64(r.Intn(3)), Denominator: 1<<63 + uint64(r.Intn(3))}
+			case "tl-max":
+				cs.TrustLevel = ibctm.Fraction{Numerator: 1<<63 - 1, Denominator: 1<<63 - 1}
+			case "tl-zero-den":
+				cs.TrustLevel = ibctm.Fraction{Numerator: 0, Denominator: 0}
+			case "tl-below-third":
+				cs.TrustLevel = ibctm.Fraction{Numerator: 1, Denominator: 4}
+			case "tl-above-one":
+				cs.TrustLevel = ibctm.Fraction{Numerator: 4, Denominator: 3}
+			case "tl-one":
+				cs.TrustLevel = ibctm.Fraction{Numerator: 7, Denominator: 7}
+			case "tl-two-thirds":
+				cs.TrustLevel = ibctm.Fraction{Numerator: 2, Denominator: 3}
+			case "chain-blank":
+				cs.ChainId = " \t "
+			case "chain-empty":
+				cs.ChainId = ""
+			case "chain-long":
+				cs.ChainId = "cccccccccccccccccccccccccccccccccccccccccccccccc-1x"
+			case "chain-50":
+				cs.ChainId = "cccccccccccccccccccccccccccccccccccccccccccccccc-1"
+			case "trusting-zero":
+				cs.TrustingPeriod = 0
+			case "trusting-neg":
+				cs.TrustingPeriod = -1
+			case "unbonding-zero":
+				cs.UnbondingPeriod = 0
+			case "drift-zero":
+				cs.MaxClockDrift = 0
+			case "revision-mismatch":
+				cs.LatestHeight = clienttypes.NewHeight(2, 10)
+			case "height-zero":
+				cs.LatestHeight = clienttypes.NewHeight(1, 0)
+			case "trusting-eq-unbonding":
+				cs.TrustingPeriod = cs.UnbondingPeriod
+			case "trusting-gt-unbonding":
+				cs.TrustingPeriod = cs.UnbondingPeriod + 1
+			case "specs-nil":
+				cs.ProofSpecs = nil
+			case "upath-blank":
+				cs.UpgradePath = []string{"upgrade", " "}
+			case "upath-empty":
+				cs.UpgradePath = nil
+			case "no-revision":
+				cs.ChainId = "plainchain"
+				cs.LatestHeight = clienttypes.NewHeight(0, 10)
+			case "huge-revision":
+				cs.ChainId = "x-99999999999999999999999"
+			}
+			res := outcome(func() error { return cs.Validate() })
+			o.Emit("validate", map[string]any{"c": projState("0", cs), "via": "validate"}, res, v)
+			// the same state through MsgCreateClient's keeper path
+			cctx, _ := e.A.GetContext().CacheContext()
+			cons := &ibctm.ConsensusState{Timestamp: cctx.BlockTime(), Root: commitmenttypes.NewMerkleRoot(r.Bytes(32)), NextValidatorsHash: r.Bytes(32)}
+			csBz, err1 := e.A.App.AppCodec().Marshal(cs)
+			consBz, err2 := e.A.App.AppCodec().Marshal(cons)
+			if err1 != nil || err2 != nil {
+				panic("marshal")
+			}
+			cres := outcome(func() error {
+				_, err := e.ibc().ClientKeeper.CreateClient(cctx, exported.Tendermint, csBz, consBz)
+				return err
+			})
+			o.Emit("validate", map[string]any{"c": projState("0", cs), "via": "create"}, cres, v)
+		}
+	}
+}
+
+func famLight(t *testing.T, r *hx.Rng, o *hx.Out) {
+	e := newEnv(t)
+	w := e.newWorld(ibctesting.NewTendermintConfig(), ibctesting.NewTendermintConfig(), false)
+	l := &lightEnv{e: e, cid: w.cid1, keys: newKeyring(r, 9)}
+	famValidate(e, r, o)
+	for rep := 0; rep < hx.N(8, 200); rep++ {
+		for _, m := range headerMutations {
+			l.genHeader(r, o, m)
+		}
+	}
+	for rep := 0; rep < hx.N(6, 150); rep++ {
+		for _, m := range misbMutations {
+			l.genMisb(r, o, m)
+		}
+	}
+}
